@@ -507,6 +507,27 @@ def finish(ctx, proof):
     sys.exit(0)
 
 
+def registry_names():
+    """(names registered by InstructionSet::load(), names registered in the model)"""
+    dec = lambda r: set("".join(chr(c) for c in n) for n in sx_parse(r)[1])
+    return dec(run_impl(["names (0)"])[0]), dec(run_model(["names (0)"])[0])
+
+
+def check_registry(ctx, prefix=None):
+    """the model's registry and the implementation's must register the same instruction names"""
+    impl, model = registry_names()
+    if prefix:
+        impl = set(n for n in impl if n.startswith(prefix)); model = set(n for n in model if n.startswith(prefix))
+    ctx.evaluations += 1
+    ctx.stats["registry-names"] = {"cases": 1, "implementation": len(impl), "model": len(model),
+                                   "note": "set of registered instruction names, implementation vs model"}
+    if impl != model:
+        ctx.violation("the instruction registry changed: names differ between implementation and model", {
+            "property": ctx.prop, "kind": "correspondence-broken", "suite": "names", "case": "(0)",
+            "only_in_implementation": sorted(impl - model), "only_in_model": sorted(model - impl),
+            "no_longer_checks": "registry correspondence (suite 'names')"}, nofail=True)
+
+
 TRUSTED_COMMON = [
     "Coq 8.16.1 kernel (coqc full .vo build; vm_compute used only in Examples / finite sweeps); no native_compute",
     "the model is hand-written Gallina; its tie to /repo is the correspondence run of this check (differential, bounded by the generators)",
